@@ -146,7 +146,8 @@ def outer_reset(self):
           stubs={ISTEP: ('tuple', ['float', 'bool'])}, props=['C04', 'C20'])
 def outer_step(self, action):
     ensures('delegates', lambda: returned() and ghost_calls(ISTEP) == 1 and ghost_arg(ISTEP, 0, 0) is self.inner_env
-            and ghost_arg(ISTEP, 0, 1) is action and result() is ghost_result(ISTEP, 0))
+            and ghost_arg(ISTEP, 0, 1) is action and len(result()) == 2
+            and result()[0] == ghost_result(ISTEP, 0)[0] and result()[1] == ghost_result(ISTEP, 0)[1])
 
 
 @contract(target=OEM + 'OuterEnv.state', args={'self': OUT}, props=['C04', 'C20'])
@@ -169,3 +170,78 @@ def outer_observation(self):
     ensures('representation-of-inner-observation', lambda: implies(rep is not None and (c0 or st0 is not None), lambda: (
         returned() and ghost_calls(rep.convert) == 1 and ghost_arg(rep.convert, 0, 0) is self.inner_env._observation
         and result() is ghost_result(rep.convert, 0))))
+
+
+# ------------------------------------------------------------------------- short histories
+# The per-call contracts above range over every value of the fields the classes have today.  A memo kept in
+# a field added later would start from its constructor value in those contracts, so what an earlier *read*
+# may do to a later one is checked on short histories: read, operate, read again.
+FSTEP = ('tuple', ['State', 'float', 'bool'])
+
+
+def last_call(f):
+    return ghost_calls(f) - 1
+
+
+@lemma(args={'self': OUT, 'action': 'Action'}, stubs={FR: 'State', FS: FSTEP, FO: 'Observation'}, props=['C04', 'C20'])
+def outer_reads_follow_a_reset(self, action):
+    srep = self.state_representation
+    orep = self.observation_representation
+    if srep is not None and orep is not None:
+        self.reset()
+        self.state                       # earlier reads (may fill memos)
+        self.observation
+        self.reset()
+        s = self.state
+        o = self.observation
+        check('state-read-converts-the-fresh-state', lambda: ghost_calls(FR) == 2
+              and self.inner_env._state is ghost_result(FR, 1)
+              and ghost_arg(srep.convert, last_call(srep.convert), 0) is ghost_result(FR, 1)
+              and s is ghost_result(srep.convert, last_call(srep.convert)))
+        check('observation-read-converts-the-observation-of-the-fresh-state', lambda: (
+            ghost_arg(FO, last_call(FO), 1) is ghost_result(FR, 1)
+            and ghost_arg(orep.convert, last_call(orep.convert), 0) is ghost_result(FO, last_call(FO))
+            and o is ghost_result(orep.convert, last_call(orep.convert))))
+
+
+@lemma(args={'self': OUT, 'action': 'Action'}, stubs={FR: 'State', FS: FSTEP, FO: 'Observation'}, props=['C04', 'C20'])
+def outer_reads_follow_a_step(self, action):
+    srep = self.state_representation
+    orep = self.observation_representation
+    if srep is not None and orep is not None:
+        self.reset()
+        self.state
+        self.observation
+        r = self.step(action)
+        s = self.state
+        o = self.observation
+        check('step-returns-reward-and-done-of-the-functional-step', lambda: ghost_calls(FS) == 1
+              and ghost_arg(FS, 0, 1) is ghost_result(FR, 0) and ghost_arg(FS, 0, 2) is action
+              and r[0] == ghost_result(FS, 0)[1] and r[1] == ghost_result(FS, 0)[2])
+        check('state-read-converts-the-next-state', lambda: (
+            self.inner_env._state is ghost_result(FS, 0)[0]
+            and ghost_arg(srep.convert, last_call(srep.convert), 0) is ghost_result(FS, 0)[0]
+            and s is ghost_result(srep.convert, last_call(srep.convert))))
+        check('observation-read-converts-the-observation-of-the-next-state', lambda: (
+            ghost_arg(FO, last_call(FO), 1) is ghost_result(FS, 0)[0]
+            and ghost_arg(orep.convert, last_call(orep.convert), 0) is ghost_result(FO, last_call(FO))
+            and o is ghost_result(orep.convert, last_call(orep.convert))))
+
+
+@lemma(args={'self': ENV, 'action': 'Action'}, stubs={FR: 'State', FS: FSTEP, FO: 'Observation'}, props=['C04', 'C20'])
+def inner_reads_follow_reset_and_step(self, action):
+    self.reset()
+    self.state
+    self.observation
+    self.reset()
+    check('state-after-reset', lambda: self.state is ghost_result(FR, 1))
+    o1 = self.observation
+    check('observation-after-reset', lambda: ghost_arg(FO, last_call(FO), 1) is ghost_result(FR, 1)
+          and o1 is ghost_result(FO, last_call(FO)))
+    self.step(action)
+    check('state-after-step', lambda: self.state is ghost_result(FS, 0)[0])
+    o2 = self.observation
+    check('observation-after-step', lambda: ghost_arg(FO, last_call(FO), 1) is ghost_result(FS, 0)[0]
+          and o2 is ghost_result(FO, last_call(FO)))
+    o3 = self.observation
+    check('repeated-read-consumes-nothing', lambda: o3 is o2 and ghost_calls(FO) == 3)
